@@ -145,7 +145,10 @@ def probe_subtree(rng):
         # the highest ranks the node database admits (CGIO_MAX_DIMENSIONS = 12) and the one below
         N(b"r11", b"", "R8", [1, 2, 1, 1, 2, 1, 1, 1, 1, 1, 3], rb(96)), N(b"r12", b"", "I4", [2, 1, 1, 1, 1, 3, 1, 1, 1, 1, 1, 2], rb(48)),
         N(b"deep", b"", kids=deep), N(b"wide", b"", kids=[N(b"c%03d" % i) for i in range(40)]),
-        N(b"names", b"", kids=names_family(rng))])
+        N(b"names", b"", kids=names_family(rng)),
+        # numeric values for -t: every float type, complex ones with a small imaginary part in the first element
+        N(b"t_r4", b"", "R4", [3], struct.pack("<3f", 1.5, -2.25, 1e-3)), N(b"t_r8", b"", "R8", [3], struct.pack("<3d", 1.5, -2.25, 1e-3)),
+        N(b"t_x4", b"", "X4", [2], struct.pack("<4f", 1.0, 1e-30, 3.0, -4.0)), N(b"t_x8", b"", "X8", [2], struct.pack("<4d", 1.0, 1e-300, 3.0, -4.0))])
 
 
 def names_family(rng):
@@ -173,7 +176,9 @@ def names_family(rng):
 
 TARGETED = ["redim:r1:0", "redim:r2:0", "redim:r2:1", "redim:r3:0", "redim:r3:1", "redim:r3:2", "redim:r4:0", "redim:r4:1",
             "redim:r4:3", "redim:r12:11", "databyte:r12", "databyte:mc", "relabel:deep", "retype:r1", "retype:r2", "addchild:wide", "delchild:wide",
-            "relabel:names", "databyte:names", "rename:case", "rename:blank", "delchild:names"]
+            "relabel:names", "databyte:names", "rename:case", "rename:blank", "delchild:names",
+            "value:t_r4:1", "value:t_r8:2", "value:t_x4:0", "value:t_x4:1", "value:t_x4:3", "value:t_x8:0", "value:t_x8:1", "value:t_x8:2"]
+DELTA = 0.5          # what a "value" edit adds to one component; tolerances 0.125 (reported) and 2.0 (silent) bracket it
 
 
 def targeted_edit(spec, kids):
@@ -188,6 +193,12 @@ def targeted_edit(spec, kids):
         nd = list(n["dims"]); nd[i] += 1
         sz = TY[n["dt"]]; ndata = (n["data"] + b"\0" * (nodedb.prod(nd) * sz))[:nodedb.prod(nd) * sz]
         return "redim", p, [",".join(map(str, nd))], lambda k, p=p, nd=nd, ndata=ndata: node_at(k, p).update(dims=nd, data=ndata)
+    if t[0] == "value":                             # one component of one element of a numeric array moves by DELTA
+        p = (PROBE, t[1].encode()); n = node_at(kids, p); i = int(t[2])
+        fmt = "<%d%s" % (len(n["data"]) // (4 if n["dt"] in ("R4", "X4") else 8), "f" if n["dt"] in ("R4", "X4") else "d")
+        v = list(struct.unpack(fmt, n["data"])); v[i] += DELTA
+        nd = struct.pack(fmt, *v)
+        return "setdata", p, [nd.hex()], lambda k, p=p, nd=nd: node_at(k, p).update(data=nd)
     if len(t) > 1 and t[1] in ("names", "case", "blank"):
         fam = node_at(kids, (PROBE, b"names"))["kids"]
         order = sorted(fam, key=lambda n: fold(n["name"]))
@@ -789,11 +800,20 @@ OPTSETS = ["", "c", "i", "ci", "d", "cd", "di", "cdi"]          # -c -i -d in ev
 EXTRA = {"q": ["-q"], "t": ["-t1e-9"]}                           # -q is read by nobody; -t only matters for float data
 
 
+def split_opts(opts):
+    """'cd@0.125' -> ('cd', 0.125); the letter t stands for -t1e-9"""
+    o, _, t = opts.partition("@")
+    return o, (float(t) if t else (1e-9 if "t" in o else None))
+
+
 def diff_args(opts, follow):
+    o, tol = split_opts(opts)
     a = []
-    for ch in opts:
+    for ch in o:
         a += EXTRA.get(ch, ["-" + ch])
-    return a + (["-f"] if follow and "f" not in opts else [])
+    if "@" in opts:
+        a.append("-t%r" % tol)
+    return a + (["-f"] if follow and "f" not in o else [])
 
 
 def run_cgnsdiff(cx, work, a, b, follow, opts="d", ds=None):
@@ -805,8 +825,26 @@ def run_cgnsdiff(cx, work, a, b, follow, opts="d", ds=None):
 
 
 def model_opts(opts, follow, recurse=False):
-    o = "".join(ch for ch in opts if ch in "dcif") + ("f" if follow and "f" not in opts else "") + ("r" if recurse else "")
-    return o or "-"
+    oo, tol = split_opts(opts)
+    o = "".join(ch for ch in oo if ch in "dcif") + ("f" if follow and "f" not in oo else "") + ("r" if recurse else "")
+    return (o or "-") + ("" if tol is None else " " + struct.pack(">d", tol).hex())
+
+
+def decode_vals(ty, hexdata):
+    b = bytes.fromhex(hexdata)
+    return list(struct.unpack("<%d%s" % (len(b) // (4 if ty in ("R4", "X4") else 8), "f" if ty in ("R4", "X4") else "d"), b))
+
+
+def beyond_tolerance(ty, h1, h2, tol):
+    """the independent reading of -t: some component pair with |a - b| > tol (differences of floats taken in float)"""
+    a, b = decode_vals(ty, h1), decode_vals(ty, h2)
+    for x, y in zip(a, b):
+        d = x - y
+        if ty in ("R4", "X4") and d == d and abs(d) < 3e38:
+            d = struct.unpack("<f", struct.pack("<f", d))[0]
+        if abs(d) > tol:
+            return True
+    return False
 
 
 _MVER = ["cur"]          # the matching variant the tool shows (probed by corpus 09); handed to the engine
@@ -827,6 +865,16 @@ def model_diffs(world_files, cmds):
             ms.append("diff %s %s %s" % (hx(f1.encode()), hx(f2.encode()), model_opts(opts, follow)))
     sec = sections(vlib.run_model("c09", "\n".join(ms) + "\n"))
     return [x[2] for x in sec[-len(cmds):]]
+
+
+def float_bytes(world_files):
+    """bytes of float data in the given trees: the extracted model compares them value by value through Flocq under -t"""
+    return sum(len(n["data"]) for _, _, kids in world_files for _, n, _ in walk(kids) if n["k"] == "N" and n["dt"] in ("R4", "R8", "X4", "X8"))
+
+
+def tol_is_active(opts):
+    t = split_opts(opts)[1]
+    return t is not None and t > 0
 
 
 def model_diff(world_files, f1, f2, follow, opts="d"):
@@ -920,7 +968,13 @@ def do_diff(cx, world, idx, scen, outs, impl, thorough):
         osets = [(o, None) for o in OPTSETS] + [("dq", None), ("dt", None), ("cdiqt", None)]
         with concurrent.futures.ThreadPoolExecutor(max_workers=WORKERS) as ex:
             runs = list(ex.map(lambda oo: run_cgnsdiff(cx, work, src, dst, follow, oo[0], oo[1]), osets))
-        preds = model_diffs(files + [(dst, y, copy_tree)], [(src, dst, o, follow, ds) for o, ds in osets])
+        heavy = float_bytes(files + [(dst, y, copy_tree)]) > 65536        # then the model is asked for -t on the one-edit pairs only
+        if heavy:
+            osets_m = [(o, ds) for o, ds in osets if not tol_is_active(o)]
+        else:
+            osets_m = osets
+        pm = dict(zip(osets_m, model_diffs(files + [(dst, y, copy_tree)], [(src, dst, o, follow, ds) for o, ds in osets_m])))
+        preds = [pm.get(oo) for oo in osets]
         cx.dist["diff_pairs"] += 1
         bad = False
         for (o, ds), (out, oc, err), pred in zip(osets, runs, preds):
@@ -930,7 +984,7 @@ def do_diff(cx, world, idx, scen, outs, impl, thorough):
                 fail(cx, world, idx, {"oracle": "cgnsdiff on (file, copy) runs", "options": diff_args(o, follow), "outcome": oc, "stderr": err, "scenario": scn}); bad = True; break
             if out:
                 fail(cx, world, idx, {"oracle": "cgnsdiff on (file, copy) is silent", "options": diff_args(o, follow), "output": out[:10], "scenario": scn}); bad = True; break
-            if out != pred:
+            if pred is not None and out != pred:
                 cx.n_div += 1
                 cx.failures.append({"kind": "correspondence", "world": idx, "scenario": "cgnsdiff %s (file, copy) %s->%s" % (diff_args(o, follow), be, y),
                                     "first_difference": vlib.first_divergence(pred, out)})
@@ -963,6 +1017,12 @@ def do_diff(cx, world, idx, scen, outs, impl, thorough):
                 raise vlib.Infra("edit %s %s of %s failed: %s %s" % (kind, pstr(path), efile, eoc, sec[:1]))
             cx.dist["edits"][kind] = cx.dist["edits"].get(kind, 0) + 1
             cx.dist["diff_edits"] += 1
+            vals = None
+            if kind == "setdata":
+                vl, voc, vst = run_ops(cx, ["vals %s %s" % (dst, hx(pstr(path))), "vals %s %s" % (efile, hx(pstr(path)))], work)
+                vals = [l.split(" ")[3:5] for l in vl if l.startswith("R vals ok")]
+                if voc != "ok" or len(vals) != 2:
+                    raise vlib.Infra("vals of %s failed: %s %s" % (pstr(path), voc, vl))
             # option sets for this edit: -d always, two more in rotation, every one when the edit aims at the names family;
             # a float datum may legitimately vanish under -t, and a dataset run needs the node to exist in both files
             names_edit = len(path) > 1 and path[1] == b"names"
@@ -973,9 +1033,15 @@ def do_diff(cx, world, idx, scen, outs, impl, thorough):
                 for _ in range(2):
                     osets.append((OPTSETS[cx.oq % len(OPTSETS)], None)); cx.oq += 1
             osets.append(("dq", None))
-            if kind != "databyte":
+            float_node = kind in ("databyte", "setdata") and (node_at(copy_tree, path) or {}).get("dt") in ("R4", "R8", "X4", "X8")
+            if kind == "setdata":                      # tolerances below and above the edit, with and without name options
+                osets += [("d@%r" % (DELTA / 4), None), ("d@%r" % (DELTA * 4), None), ("cdi@%r" % (DELTA / 4), None), ("cdi@%r" % (DELTA * 4), None),
+                          ("d@0.0", None), ("d@-1.0", None), ("@%r" % (DELTA / 4), None)]
+            elif kind == "databyte" and not float_node:
+                osets.append(("d@1e+30", None))        # -t means nothing for integers and characters
+            if not float_node:
                 osets.append(("cdit", None))
-            if kind in ("relabel", "retype", "redim", "databyte"):
+            if kind in ("relabel", "retype", "redim", "databyte", "setdata"):
                 pth = pstr(path).decode("latin1")
                 par = pstr(path[:-1]).decode("latin1") if len(path) > 1 else None
                 osets.append(("d", (pth, False)))
@@ -984,7 +1050,15 @@ def do_diff(cx, world, idx, scen, outs, impl, thorough):
             osets = list(dict.fromkeys(osets))
             with concurrent.futures.ThreadPoolExecutor(max_workers=WORKERS) as ex:
                 runs = list(ex.map(lambda oo: run_cgnsdiff(cx, work, src, efile, follow, oo[0], oo[1]), osets))
-            preds = model_diffs(files + [(efile, y, edited)], [(src, efile, o, follow, ds) for o, ds in osets])
+            if heavy and kind != "setdata":
+                osets_m = [(o, ds) for o, ds in osets if not tol_is_active(o)]
+            elif heavy:
+                osets_m = [(o, ds) for o, ds in osets if not tol_is_active(o)] + [oo for oo in osets if tol_is_active(oo[0])][:2]
+            else:
+                osets_m = osets
+            pm = dict(zip(osets_m, model_diffs(files + [(efile, y, edited)], [(src, efile, o, follow, ds) for o, ds in osets_m])))
+            preds = [pm.get(oo) for oo in osets]
+            cx.dist["tol_predictions_skipped"] = cx.dist.get("tol_predictions_skipped", 0) + len(osets) - len(osets_m)
             for (o, ds), (out, oc, err), pred in zip(osets, runs, preds):
                 ck.cov["traces_validated_against_impl"] += 1
                 key = o + (":ds" + ("r" if ds[1] else "") if ds else "")
@@ -994,14 +1068,17 @@ def do_diff(cx, world, idx, scen, outs, impl, thorough):
                 if oc != "ok":
                     fail(cx, world, idx, dict(info, oracle="cgnsdiff on (file, edited copy) runs", outcome=oc, stderr=err)); break
                 if ds is None:
-                    differs = norm_dump(sec[1][2], o) != norm_dump(sec[2][2], o)
+                    oo, tol = split_opts(o)
+                    differs = norm_dump(sec[1][2], oo) != norm_dump(sec[2][2], oo)
+                    if kind == "setdata" and tol is not None and tol > 0 and "d" in oo:
+                        differs = beyond_tolerance(vals[0][0], vals[0][1], vals[1][1], tol)      # decoded from the two files
                     if differs and not out:
                         fail(cx, world, idx, dict(info, oracle="cgnsdiff reports a difference the independent walk (read as the options ask) finds")); break
                     if not differs and out:
                         fail(cx, world, idx, dict(info, oracle="cgnsdiff is silent when the independent walk (read as the options ask) finds no difference")); break
                 elif ds[0] == pstr(path).decode("latin1") and not out:
                     fail(cx, world, idx, dict(info, oracle="cgnsdiff -d on the edited node given as dataset reports it")); break
-                if out != pred:
+                if pred is not None and out != pred:
                     cx.n_div += 1
                     cx.failures.append(dict(info, kind="correspondence", world=idx, first_difference=vlib.first_divergence(pred, out)))
 
@@ -1308,9 +1385,9 @@ def run(ck, pid="C09"):
         "a copy that returns an error (HDF5 cannot hold a typed node without dimensions; unresolvable link with follow_links) is outside the property",
         "cgnsdiff is judged on pairs whose links resolve in both files (it exits with an error otherwise); -c / -i / -t are outside the default options",
         "ADF free-space / chunk tables and all of libhdf5 are tied by this differential run only",
-        "axioms: none for 33 theorems; C09_diff_tol_nan_refuted (outside the default options) uses Flocq binary64 and inherits "
-        "ClassicalDedekindReals.sig_forall_dec, ClassicalDedekindReals.sig_not_dec, "
-        "FunctionalExtensionality.functional_extensionality_dep, Classical_Prop.classic"]
+        "axioms: 23 theorems closed; the 18 whose statement involves compare_data / compare_nodes / cgnsdiff (whose tolerance branch is "
+        "written with Flocq's binary32 / binary64 operations) inherit Flocq's four standard-library axioms ClassicalDedekindReals.sig_forall_dec, "
+        "ClassicalDedekindReals.sig_not_dec, FunctionalExtensionality.functional_extensionality_dep, Classical_Prop.classic"]
     ck.cov["rule"] = ("seeded worlds of 1-3 files in one back end (random trees of 6-110 nodes, deep chains, wide parents, all ten types, payloads around "
                       "4096 / 100000 bytes, arrays re-dimensioned after a first write, deleted garbage, internal / external / chained / nested links, "
                       "optionally a dangling link) x destination ADF / HDF5 x follow on / off through cgio_copy_file (source open r and m), cg_save_as, "
